@@ -1091,14 +1091,27 @@ package evaluator
 //@   ensures[C02] type: !isStr(v) && !isArr(v) ==> result0 == nil && isTypeErr(result1)
 //@   ensures[C02 C11] string: isStr(v) ==> result1 == nil && isStr(result0)
 //@   ensures[C02] array: isArr(v) ==> result1 == nil && isArr(result0) && len(arr(result0)) == len(arr(v)) && (forall k Int :: 0 <= k && k < len(arr(v)) ==> arr(result0)[k] == arr(v)[len(arr(v)) - 1 - k])
+// sum and avg fold decimal128 addition over the decimal values of the elements, left to right, starting from zero (C05)
+//@ ghost dsum(h Heap, s Slice, n Int) Dec = ite(n <= 0, decZero(), decAdd(dsum(h, s, n - 1), numDec(at(h, s, n - 1))))
 //@ func sum
 //@   tags C02 C05 C03 C06
 //@   ensures[C02] type: !isArr(v) ==> result0 == nil && isTypeErr(result1)
 //@   ensures[C02 C08] failure: result1 != nil ==> result0 == nil
+//@   ensures[C02 C05] elements: isArr(v) && result1 == nil ==> allNum(old(heap), arr(v), len(arr(v)))
+//@   ensures[C05] value: isArr(v) && result1 == nil ==> isDec(result0) && dec(result0) == dsum(old(heap), arr(v), len(arr(v))) && decIsFin(dec(result0))
+//@   ensures[C05 C08] inf: isArr(v) && allNum(old(heap), arr(v), len(arr(v))) && decIsInf(dsum(old(heap), arr(v), len(arr(v)))) ==> result1 == global("evaluator.ErrInfinity")
+//@   ensures[C05 C08] nan: isArr(v) && allNum(old(heap), arr(v), len(arr(v))) && !decIsInf(dsum(old(heap), arr(v), len(arr(v)))) && decIsNaN(dsum(old(heap), arr(v), len(arr(v)))) ==> result1 == global("evaluator.ErrNotANumber")
+//@   loop 1
+//@     invariant[C05 C02] fold: isArr(v0) && a == arr(v0) && r == dsum(old(heap), a, iter) && allNum(old(heap), a, iter)
 //@ func avg
 //@   tags C02 C05 C03 C06
 //@   ensures[C02] type: !isArr(v) ==> result0 == nil && isTypeErr(result1)
 //@   ensures[C02 C08] failure: result1 != nil ==> result0 == nil
+//@   ensures[C02] empty: isArr(v) && len(arr(v)) == 0 ==> result0 == nil && result1 == nil
+//@   ensures[C02 C05] elements: isArr(v) && len(arr(v)) > 0 && result1 == nil ==> allNum(old(heap), arr(v), len(arr(v)))
+//@   ensures[C05] value: isArr(v) && len(arr(v)) > 0 && result1 == nil ==> isDec(result0) && dec(result0) == decQuo(dsum(old(heap), arr(v), len(arr(v))), decOfInt(len(arr(v)))) && decIsFin(dec(result0))
+//@   loop 1
+//@     invariant[C05 C02] fold: isArr(v0) && a == arr(v0) && len(a) > 0 && r == dsum(old(heap), a, iter) && allNum(old(heap), a, iter)
 //@ func toString
 //@   tags C02 C03 C06 C08
 //@   ensures[C02] string: isStr(v) ==> result1 == nil && result0 == v
